@@ -1039,3 +1039,7 @@ mod test {
             .collect()
     }
 }
+
+#[cfg(kani)]
+#[path = "/verif/kani/assignment.rs"]
+mod kani_verif;
